@@ -92,6 +92,7 @@ def make_case(seed, tier):
 
 
 USER_NAMED = set()      # simple class names whose *declaration* has a member called string_serialize / string_deserialize
+BOTH = set()            # ... and that also get the generated serialization support (two functions of one name: not decided)
 
 
 def check_toolbox(tb, acc, expect_ids=None):
@@ -174,6 +175,9 @@ def identity_mismatch(s, r):
         if r.get('collector') != s['collector']:
             return 'erases from collector_%s' % r.get('collector')
     elif role in ('method', 'static') and s.get('member') in ('string_serialize', 'string_deserialize') and \
+            s.get('class') in BOTH:
+        return None
+    elif role in ('method', 'static') and s.get('member') in ('string_serialize', 'string_deserialize') and \
             s.get('class') not in USER_NAMED:
         want = 'serialize' if s['member'] == 'string_serialize' else 'deserialize'
         if r['role'] != want:
@@ -234,6 +238,7 @@ def run_case(seed, tier, acc):
         return [], text, opts
     acc.count('contract:_update_wrapper_id', CONTRACT['evals'] - before)
     USER_NAMED.clear()
+    BOTH.clear()
     exp = None
     try:
         E = ref_matlab.Expect(mod, 'modx', opts['ignore'], opts['ser'])
@@ -242,7 +247,10 @@ def run_case(seed, tier, acc):
             if any(getattr(m, 'name', None) in ('string_serialize', 'string_deserialize') for m in d['model'].members):
                 # an ordinary member that happens to carry the name of the generated serialization support: its
                 # call sites lead to ordinary routines
-                USER_NAMED.add(d['name'])
+                if opts['ser'] and any(getattr(m, 'name', None) == 'serialize' and m.k == 'Method' for m in d['model'].members):
+                    BOTH.add(d['name'])
+                else:
+                    USER_NAMED.add(d['name'])
     except Exception:
         acc.count('reference_count_unavailable')
     vs = check_toolbox(tb, acc, exp)
